@@ -218,6 +218,35 @@ def opKernelB2B (j : Json) : M Json := do
   pure (Json.mkObj [("cells", Json.arr cells.toArray), ("bits", jNat (maxBits w.toList)),
     ("err", match e with | some _ => Json.str "Raised:IO" | none => Json.null)])
 
+/-- op chunk_files: what `create_binary_event_files` leaves in the directory
+    (names + decoded contents in numeric order), the count it returns, and the
+    submit-loop simulation for the given completion delays -/
+def opChunkFiles (j : Json) : M Json := do
+  let es ← getIdEvents j "events"
+  let per ← getNat j "per"
+  let p ← getPolicy j "policy"
+  let burst := getNatD j "burst" 4
+  let delays ← match getOpt j "delays" with
+    | some d => asNatList d
+    | none => pure []
+  if per < 2 then pure (jErr .value) else
+  match makeChunks Generated.pyMagic Generated.pyVersion p es per with
+  | .error e => pure (jErr e)
+  | .ok (files, total) =>
+    match decodeAll Generated.pyMagic Generated.pyVersion files with
+    | .error e => pure (jErr e)
+    | .ok chunks =>
+      let named := (List.range chunks.length).zip chunks |>.map (fun (i, c) =>
+        Json.mkObj [("name", Json.str (String.ofList (chunkName i))), ("key", jNat (chunkKey (chunkName i))),
+                    ("events", Json.arr (c.map jEvent).toArray)])
+      let delay : Nat → Nat := fun k => delays.getD k 0
+      let n := es.length
+      let H := tDone delay burst (n / per)
+      let (c, k, tot) := simulate n per burst delay H
+      pure (Json.mkObj [("files", Json.arr named.toArray), ("total", jNat total),
+        ("first_closing", jNat (n / per)), ("sim_close_time", jNat c), ("sim_submitted", jNat k),
+        ("sim_total", jNat tot), ("sim_horizon", jNat H)])
+
 def handle (j : Json) : M Json := do
   let op ← getStr j "op"
   match op with
@@ -227,6 +256,7 @@ def handle (j : Json) : M Json := do
   | "ndl" => opNdl j
   | "queue_trace" => opQueueTrace j
   | "partition" => opPartition j
+  | "chunk_files" => opChunkFiles j
   | "encode" => opEncode j
   | "decode" => opDecode j
   | "kernel_b2b" => opKernelB2B j
